@@ -197,11 +197,47 @@ func c17Validate(c *Ctx) *RuleResult {
 	u := p.Unit(virtualPkg, "casInitialContentsFetcher.fetchContentsUnwrapped")
 	info := u.Info()
 	g := NewFuncCFG(info, u.Decl.Body)
+	// the result map: first result of the successful return; the unlink list: the slice ranged over
+	// by the deferred closure that unlinks
+	childrenName, unlinkList := "", ""
+	ast.Inspect(u.Decl.Body, func(n ast.Node) bool {
+		switch x := n.(type) {
+		case *ast.ReturnStmt:
+			if len(x.Results) == 2 && isNilIdent(x.Results[1]) {
+				childrenName = exprStr(x.Results[0])
+			}
+		case *ast.DeferStmt:
+			if fl, ok := ast.Unparen(x.Call.Fun).(*ast.FuncLit); ok {
+				ast.Inspect(fl.Body, func(m ast.Node) bool {
+					if rs, ok := m.(*ast.RangeStmt); ok {
+						unlinks := false
+						ast.Inspect(rs.Body, func(k ast.Node) bool {
+							if call, ok := k.(*ast.CallExpr); ok {
+								if sel, ok := ast.Unparen(call.Fun).(*ast.SelectorExpr); ok && sel.Sel.Name == "Unlink" {
+									unlinks = true
+								}
+							}
+							return true
+						})
+						if unlinks {
+							unlinkList = exprStr(rs.X)
+						}
+					}
+					return true
+				})
+			}
+		}
+		return true
+	})
+	if childrenName == "" || unlinkList == "" {
+		panic(anchorError("fetchContentsUnwrapped: result map / deferred unlink list"))
+	}
 	ast.Inspect(u.Decl.Body, func(n ast.Node) bool {
 		rs, ok := n.(*ast.RangeStmt)
-		if !ok {
+		if !ok || rs.Value == nil || enclosingFuncLit(u.Decl.Body, rs) != nil {
 			return true
 		}
+		entryName := exprStr(rs.Value)
 		kind := exprStr(rs.X)
 		ast.Inspect(rs.Body, func(m ast.Node) bool {
 			as, ok := m.(*ast.AssignStmt)
@@ -209,31 +245,34 @@ func c17Validate(c *Ctx) *RuleResult {
 				return true
 			}
 			ix, ok := ast.Unparen(as.Lhs[0]).(*ast.IndexExpr)
-			if !ok || exprStr(ix.X) != "children" {
+			if !ok || exprStr(ix.X) != childrenName {
 				return true
 			}
+			componentName := exprStr(ix.Index)
 			construct := constructOf(u, "insert from "+kind)
 			gs := flattenGuards(GuardsOf(info, rs.Body, as))
 			nameOK, dupOK, digOK := false, false, !strings.HasSuffix(kind, "Directories") && !strings.HasSuffix(kind, "Files")
+			fu := &FuncUnit{Fn: u.Fn, Decl: u.Decl, Pkg: u.Pkg}
 			for _, gd := range gs {
-				s := exprStr(gd.Cond)
-				if gd.Pos && s == "ok" {
-					nameOK = true // survived `if !ok { return }` after path.NewComponent
+				src := guardIdentSource(fu, gd)
+				if src != nil {
+					s := exprStr(src)
+					// survived `if !ok { return }` after path.NewComponent(<entry>.Name)
+					if gd.Pos && strings.HasSuffix(s, "NewComponent("+entryName+".Name)") {
+						nameOK = true
+					}
+					// survived `if _, ok := children[component]; ok { return }`
+					if !gd.Pos && s == childrenName+"["+componentName+"]" {
+						dupOK = true
+					}
 				}
-				if !gd.Pos && s == "ok" {
-					dupOK = true
+				if guardErrIsNil(info, gd, "") {
+					// the error of converting this entry's digest
+					errID, _, _ := nilTestOf(gd)
+					if call := tupleSource(fu, errID); call != nil && strings.HasSuffix(exprStr(call.Fun), "NewDigestFromProto") && len(call.Args) == 1 && exprStr(call.Args[0]) == entryName+".Digest" {
+						digOK = true
+					}
 				}
-				if !gd.Pos && s == "err != nil" {
-					digOK = true
-				}
-			}
-			// the tests must concern this entry: NewComponent(entry.Name), children[component], NewDigestFromProto(entry.Digest)
-			body := exprStrStmts(rs.Body)
-			if !strings.Contains(body, "NewComponent(entry.Name)") || !strings.Contains(body, "children[component]") {
-				nameOK = false
-			}
-			if (strings.HasSuffix(kind, "Directories") || strings.HasSuffix(kind, "Files")) && !strings.Contains(body, "NewDigestFromProto(entry.Digest)") {
-				digOK = false
 			}
 			if nameOK && dupOK && digOK {
 				r.ok(construct, posOf(p, as), "dominated by name, duplicate and digest checks")
@@ -263,7 +302,7 @@ func c17Validate(c *Ctx) *RuleResult {
 		recorded := false
 		ast.Inspect(u.Decl.Body, func(m ast.Node) bool {
 			o, ok := m.(*ast.AssignStmt)
-			if !ok || len(o.Lhs) != 1 || exprStr(o.Lhs[0]) != "leavesToUnlink" || len(o.Rhs) != 1 {
+			if !ok || len(o.Lhs) != 1 || exprStr(o.Lhs[0]) != unlinkList || len(o.Rhs) != 1 {
 				return true
 			}
 			if ac, ok := ast.Unparen(o.Rhs[0]).(*ast.CallExpr); ok && exprStr(ac.Fun) == "append" && len(ac.Args) == 2 && exprStr(ac.Args[1]) == leaf {
@@ -274,7 +313,7 @@ func c17Validate(c *Ctx) *RuleResult {
 					}
 					if ret, ok := k.(*ast.ReturnStmt); ok {
 						for _, gd := range flattenGuards(GuardsOf(info, u.Decl.Body, ret)) {
-							if gd.Pos && exprStr(gd.Cond) == "err != nil" && ret.Pos() > as.Pos() && ret.Pos() < o.Pos() {
+							if guardErrNotNil(info, gd, "") && ret.Pos() > as.Pos() && ret.Pos() < o.Pos() {
 								return true
 							}
 						}
@@ -296,7 +335,7 @@ func c17Validate(c *Ctx) *RuleResult {
 	// leavesToUnlink = nil only right before success
 	ast.Inspect(u.Decl.Body, func(n ast.Node) bool {
 		as, ok := n.(*ast.AssignStmt)
-		if !ok || len(as.Lhs) != 1 || exprStr(as.Lhs[0]) != "leavesToUnlink" || !isNilIdent(as.Rhs[0]) {
+		if !ok || len(as.Lhs) != 1 || exprStr(as.Lhs[0]) != unlinkList || !isNilIdent(as.Rhs[0]) {
 			return true
 		}
 		construct := constructOf(u, "drop unlink list")
@@ -345,7 +384,7 @@ func c17Validate(c *Ctx) *RuleResult {
 			if okM {
 				okM = false
 				for _, g2 := range flattenGuards(GuardsOf(info, du.Decl.Body, w.Node)) {
-					if !g2.Pos && exprStr(g2.Cond) == errName+" != nil" {
+					if guardErrIsNil(info, g2, errName) {
 						okM = true
 					}
 				}
